@@ -14,7 +14,7 @@ REPO = os.environ.get('VERIF_REPO', '/repo')
 COQ = os.path.join(VERIF, 'coq')
 OCAML = os.path.join(VERIF, 'ocaml')
 HARNESS = os.path.join(VERIF, 'harness')
-EVID = os.path.join(VERIF, 'evidence')
+EVID = os.environ.get('VERIF_EVID_DIR') or os.path.join(VERIF, 'evidence')   # VERIF_EVID_DIR: side runs (thorough sweeps) that must not overwrite the registered evidence
 REPLAY = os.path.join(EVID, 'replay')
 GUARD = 'rsjsonnet_verif'
 NCPU = os.cpu_count() or 4
